@@ -207,15 +207,16 @@ def pySameObj : PyVal → PyVal → Bool
   | _, _ => false
 
 /-- `if_then_else(cond, truev, falsev)`; `same` = the two branches are the same register.  With a
-secret (boolean) condition the library returns an integer-typed secret: the pick, retagged `int`
-(scalar branches; selection between lists under a secret condition is outside: see `PyExcl`). -/
+secret (boolean) condition the result is the pick: a boolean when both branches are booleans (a
+selection between two booleans is a boolean), else an integer-typed secret (retagged `int`).
+Scalar branches; selection between lists under a secret condition is outside: see `PyExcl`. -/
 def pyIte (same : Bool) (c t f : PyVal) : PyM PyVal :=
   if same || pySameObj t f then .ok t else
   match c with
   | .int c => if c = 0 then .ok f else if c = 1 then .ok t else .error .raises
   | .bool c =>
     match t.num?, f.num? with
-    | some x, some y => .ok (.int (if c = 0 then y else x))
+    | some x, some y => .ok (pyTag (t.isBool && f.isBool) (if c = 0 then y else x))
     | _, _ => .error .outside
   | _ => .error .outside
 
@@ -402,8 +403,6 @@ inductive PyExcl
   compute the power reduced modulo the field prime; excluded exactly when the Python power
   (`x ^ e`, for the shifts `2 ^ e`) is not in `[0, p)` -/
   | secretExponentWraps
-  /-- RECORDED DEVIATION C05-rshift-negative: `x >> n` with a negative public `n` returns a value -/
-  | rshiftNegative
   /-- selection between lists / tuples under a SECRET condition: the library zips the branches
   (truncating to the shorter one), the plain pick does not; not composed -/
   | selectLists
@@ -453,7 +452,6 @@ def pyExclBin (p : Int) (op : BinOp) (a b : Val) : Option PyExcl :=
   | .rshift =>
     match b with
     | .lc e => if powWraps p 2 e.value then some .secretExponentWraps else Option.none
-    | .int n => if n < 0 then some .rshiftNegative else Option.none
     | _ => Option.none
   | .band | .bxor | .bor =>
     match a, b with
